@@ -73,11 +73,17 @@ def pubkey(k):
 
 def responder_case(case):
     cfg = gen.simple_cfg(dh='19')
-    s = SM.Sim(cfg, monitors=[SM.NoEscape(), SM.TableExact()])
+    third = None
+    if case.get('other_peer'):
+        from . import c16
+        third = c16.third_cfg(cfg)
+    s = SM.Sim(cfg, monitors=[SM.NoEscape(), SM.TableExact()], third=third)
     a = s.a
     T, h, variant = case['T'], case['h'], case['variant']
     a.ctrl.cookie_threshold = T
     src = cfg['addr_b']
+    # with `other_peer` the load comes from one configured peer and the request under test from another configured peer
+    load_src = third['addr_b'] if third else src
     fails = s.fails
     info = {'over': h > T, 'reached': False}
 
@@ -94,11 +100,11 @@ def responder_case(case):
     for i in range(h):
         spi = bytes([0xA0, i]) + bytes(6)
         nonce = bytes([i]) * 32
-        outs = send(init_request(spi, nonce, pubkey(i)))
+        outs = send(init_request(spi, nonce, pubkey(i)), load_src)
         m = W.decode(outs[0].data) if outs else None
         ck = W.find(m['payloads'], 'NOTIFY', W.N['COOKIE']) if m else []
         if ck:
-            send(init_request(spi, nonce, pubkey(i), [bytes.fromhex(ck[0]['data'])]))
+            send(init_request(spi, nonce, pubkey(i), [bytes.fromhex(ck[0]['data'])]), load_src)
     half = len([q for q in a.sas if q.state < State.ESTABLISHED])
     if half != h:
         s.fail('setup-half-open-count', f'{half} half-open IKE_SAs after {h} legitimate IKE_SA_INIT requests')
@@ -298,9 +304,9 @@ def run_case(case):
 def body(case, stats):
     fails, info, s = run_case(case)
     if case['kind'] == 'responder':
-        kl = [f'T={case["T"]}', f'h-T={case["h"] - case["T"]}', 'variant:' + case['variant'], 'request:' + case.get('req_kind', 'normal'),
+        kl = [f'T={case["T"]}', f'h-T={case["h"] - case["T"]}', 'variant:' + case['variant'], 'request:' + case.get('req_kind', 'normal'), 'load-from-other-peer' if case.get('other_peer') else 'load-from-same-peer',
               'cookie-demanded' if info['reached'] else 'no-cookie-demanded']
-        fp = [case['T'], case['h'], case['variant'], case.get('k', 0) % 8, case.get('req_kind', 'normal')]
+        fp = [case['T'], case['h'], case['variant'], case.get('k', 0) % 8, case.get('req_kind', 'normal'), bool(case.get('other_peer'))]
     else:
         kl = [f'initiator:rounds={case["rounds"]}', f'initiator:requests={info["requests"]}']
         fp = ['init', case['rounds'], case.get('dh_mismatch')]
@@ -324,6 +330,8 @@ def all_cases():
                     out.append({'kind': 'responder', 'T': T, 'h': h, 'variant': v, 'k': k})
             for rk in ('other_group', 'bad_proposal', 'no_ke'):
                 out.append({'kind': 'responder', 'T': T, 'h': h, 'variant': 'absent', 'k': 0, 'req_kind': rk})
+            for v in ('absent', 'correct', 'bitflip', 'other_spi'):
+                out.append({'kind': 'responder', 'T': T, 'h': h, 'variant': v, 'k': 3, 'other_peer': True})
     for rounds in (1, 2, 3):
         for mm in (False, True):
             out.append({'kind': 'initiator', 'rounds': rounds, 'dh_mismatch': mm})
@@ -348,7 +356,7 @@ def cases(draw):
         return {'kind': 'initiator', 'rounds': draw(st.integers(1, 4)), 'dh_mismatch': draw(st.booleans())}
     T = draw(st.sampled_from([0, 1, 2, 3, 5]))
     return {'kind': 'responder', 'T': T, 'h': draw(st.integers(0, T + 3)), 'variant': draw(st.sampled_from(VARIANTS)),
-            'k': draw(st.integers(0, 255)), 'req_kind': draw(st.sampled_from(['normal', 'normal', 'normal', 'other_group',
+            'k': draw(st.integers(0, 255)), 'other_peer': draw(st.integers(0, 3)) == 0, 'req_kind': draw(st.sampled_from(['normal', 'normal', 'normal', 'other_group',
                                                                               'bad_proposal', 'no_ke']))}
 
 
